@@ -85,6 +85,7 @@ def run_case(st, case):
         res["fails"].append({"status": "prop_fail", "what": "%s %s %s: %s" % (build, mode, kinds, what),
                              "detail": {"build": build, "mode": mode, "kinds": kinds, "legacy_after_lz4": f4, "rc": rc, "stderr": err[-300:],
                                         "got": got, "expected": exp, "data": data.hex() if len(data) < 3000 else "len=%d" % len(data)}})
+    mcache = {}
     for build in ("ST", "MT"):
         exe = ctx[build]
         runs = []
@@ -114,8 +115,11 @@ def run_case(st, case):
             elif got is not None and sig(got) != exp:
                 fail(build, mode, "exit 0 but output differs from the concatenated contents", rc, err, sig(got))
             # correspondence
-            if st["io"] is not None and len(data) < 400000:
-                mrc, mout, _ = model_run(st["io"], build, data, seekable, test=mode.startswith("t_"))
+            if st["io"] is not None and len(data) < 150000:
+                mk = (build, seekable, mode.startswith("t_"))
+                if mk not in mcache:
+                    mcache[mk] = model_run(st["io"], build, data, seekable, test=mode.startswith("t_"))
+                mrc, mout, _ = mcache[mk]
                 bad = (mrc == 0) != (rc == 0) or (mrc in iolib_exact() and mrc != rc) or \
                       (rc == 0 and got is not None and mout != sig(got))
                 if bad:
